@@ -433,7 +433,7 @@ impl TableSpec {
         for p in &self.patterns {
             if !first { pu(&mut out, ","); } first = false;
             id(&mut out, &p.name); op(&mut out, "=");
-            if p.split { out.push(tk("split", TK::Ident)); }
+            if p.split { out.push(tk("split", TK::Name)); }
             out.push(tk(&quote(&p.regex), TK::Str));
         }
         for c in &self.cols {
